@@ -731,7 +731,7 @@ def shard(seed: int, n_examples: int, max_len: int, max_tape: int, dfs_slice, n_
 
 def run(ctx: RunContext) -> int:
     t0 = _real_time.time()
-    n = ctx.scale(400, 8000)
+    n = ctx.scale(300, 8000)
     max_len = 14 if ctx.quick else 24
     max_tape = 48 if ctx.quick else 96
     limit = 600 if ctx.quick else 4096
@@ -758,3 +758,14 @@ def replay_trace(trace: dict) -> None:
     """Re-execute one concrete case without Hypothesis; raises Violation if C17 still fails on it."""
     history = [h for h in trace["history"] if h[0] != "stop"]
     run_case(trace["datasets"], history, trace["tape"])
+
+
+def replay(ctx: RunContext, body: dict) -> int:
+    """Older entry point (run.py now calls replay_trace and prints the verdict itself)."""
+    try:
+        replay_trace(body["trace"])
+    except Violation as v:
+        print(f"VIOLATION property={PROP} replay={ctx.replay}\n  key={v.key}\n  what={v.what}")
+        return 1
+    print("replay: property held")
+    return 0
